@@ -58,6 +58,9 @@ func partsOf(tf *token.File, n ast.Node, prefix string) []item {
 				out = append(out, partsOf(tf, fd.Type, "Type.")...)
 				continue
 			}
+			if es, ok := c.(*ast.EmptyStmt); ok && es.Implicit {
+				continue // positioned at the following closing brace, which is not part of the node
+			}
 			if c.Pos().IsValid() && c.End().IsValid() {
 				out = append(out, item{prefix + f.Name, false, off(c.Pos()), off(c.End())})
 			}
